@@ -20,8 +20,9 @@ def _mk_solver(o, timeout_ms, mbqi=True):
     s.set("random_seed", 0)
     if not mbqi:
         s.set("smt.mbqi", False)
-    for a in _AXIOMS:
-        s.add(a)
+    if not getattr(o, "pure", False):
+        for a in _AXIOMS:
+            s.add(a)
     for f in o.pc:
         s.add(f)
     s.add(z3.Not(o.goal))
@@ -82,6 +83,17 @@ def _work(i):
     if o.verdict == "unsat":
         return i, "unsat", "simplifier", 0.0, None
     try:
+        if getattr(o, "pure", False) and _CFG.get("cvc5", True):
+            # pure (string) lemmas: cvc5 first, it is the stronger string solver
+            s = _mk_solver(o, _CFG["z3_ms"])
+            v2 = _cvc5(s, _CFG["cvc5_ms"])
+            if v2 == "unsat":
+                return i, "unsat", "cvc5-1.0.3", time.time() - t0, None
+            if v2 == "sat":
+                # take the refutation only if z3 agrees or cannot decide (no model extraction from the cvc5 CLI)
+                r0 = s.check()
+                if r0 != z3.unsat:
+                    return i, "sat", "cvc5-1.0.3", time.time() - t0, None
         # pass 1: E-matching only (fast for valid obligations); pass 2: full (can also produce models)
         s = _mk_solver(o, _CFG["z3_ms"], mbqi=False)
         r = s.check()
@@ -102,7 +114,7 @@ def _work(i):
                         from .tr import toV
                         wit[name] = py_of_model(m, toV(t), fx.entry.heap)
         backend = "z3-%s" % z3.get_version_string()
-        if verdict == "unknown" and _CFG.get("cvc5", True):
+        if verdict == "unknown" and _CFG.get("cvc5", True) and not getattr(o, "pure", False):
             v2 = _cvc5(s, _CFG["cvc5_ms"])
             if v2 in ("unsat", "sat"):
                 verdict, backend = v2, "cvc5-1.0.3"
